@@ -23,7 +23,9 @@ CFG = dict(
     translators=[("lockscan", "Gen/Gen_LockEvents.v")],
     extra=["c20hooks.race_stress"],
     shard=120,
-    rule="end-to-end: driver.PProf with a real flag set and the DEFAULT transport on 2-8 sources of mixed kinds (http, https+insecure, https with an "
+    rule="round 5: the DEFAULT UI (stdUI) printed to by 1-16 goroutines and by a 24-source invocation with Options.UI nil (whole lines, compared with "
+         "one-at-a-time runs); lock-free settings readers and page loads during saves with the settings file regular / symlinked / dangling / in a symlinked directory; "
+         "end-to-end: driver.PProf with a real flag set and the DEFAULT transport on 2-8 sources of mixed kinds (http, https+insecure, https with an "
          "untrusted certificate, files) with the -proto output re-read; 2-3 perf.data inputs converted by a fake perf_to_profile with staggered "
          "overlapping conversions; interactive sessions with rejected assignments followed by redirected commands; a FRESH child process whose "
          "first k web requests arrive together (exit status and HTTP statuses); cases = concurrent runs of: k newTempFile calls on a directory whose taken names belong to files of six kinds (fresh/old, empty/with data, "
